@@ -4,7 +4,8 @@
 From Coq Require Import List ZArith QArith Bool.
 From PV Require Import lib.Sx lib.Str lib.Result model.GenScc model.SccTime model.SccStash model.SccDecoder model.SccPopon model.SccRollPaint.
 From PV Require Import spec.SpecSccTime.
-From PV Require Import proofs.SccStashFacts proofs.SccItalicsFacts proofs.SccDoubleFacts proofs.SccConserveFacts proofs.SccRollPaintFacts proofs.SccConserveExtFacts.
+From PV Require Import proofs.SccStashFacts proofs.SccItalicsFacts proofs.SccDoubleFacts proofs.SccConserveFacts proofs.SccRollPaintFacts proofs.SccConserveExtFacts proofs.SccRollPaintLinkFacts proofs.SccRollPaintLink2Facts.
+From PV Require Import spec.Spec608 spec.SpecScc16Sent proofs.SccSent608Facts.
 Import ListNotations.
 Open Scope Z_scope.
 
@@ -101,6 +102,145 @@ Theorem C16_timing_chain_ordered : forall t0 evs pending l, rp_nonneg t0 evs -> 
   (forall i a b, nth_error l i = Some a -> nth_error l (S i) = Some b -> (fst a < fst b)%Q /\ snd a = fst b).
 Proof. exact rp_chain_ordered. Qed.
 Print Assumptions C16_timing_chain_ordered.
+
+(* ---- wave 5: conservation against an INDEPENDENT definition of "the characters transmitted". spec/SpecScc16Sent.v
+   (imports Spec608 only: no decoder model, no generated table) defines sent608: the characters a CEA-608 decoder displays
+   for a roll-up / paint-on word stream - glyphs from the Spec608 tables by the bytes of the word with parity stripped, the
+   608 rule that a control pair immediately repeating the previous word is the redundancy copy (unless that word was itself
+   a copy), an extended character replacing the stand-in before it. On the domain dom608 (also written with Spec608
+   recognisers only: parity-correct mode commands, CR, EDM, preamble codes, tab offsets, special / extended characters,
+   character pairs 0x20..0x7e, fillers; a tab offset only after a preamble code / tab offset / copy; an extended character
+   only right after the pair or special carrying its stand-in) the decoder's own edit script equals sent608 - as strings -
+   and so do the non-blank characters of the captions `read` returns. The three restrictions are necessary (Examples in
+   proofs/SccSent608Facts.v: tab_after_special_diverges, ext_after_ext_diverges, no_error_hypothesis_needed). *)
+Theorem C16_skip_decision_is_608 : forall s m w, alpha608 w = true -> Inv m (r_last s) ->
+  (is_pac608 w || is_tab608 w) = false -> fst (handle_double s w) = copy608 m w.
+Proof. exact skip_decision_608. Qed.
+Print Assumptions C16_skip_decision_is_608.
+Theorem C16_sentx_is_sent608 : forall off ls, dom608 ls = true ->
+  r_err (fold_left translate_line ls (rstate0 off)) = None ->
+  sentx_text (rstate0 off) ls = sent608 (map snd ls).
+Proof. exact sentx_is_sent608. Qed.
+Print Assumptions C16_sentx_is_sent608.
+Theorem C16_rollup_painton_conserved_608 : forall off tc0 w0 ws0 ls caps,
+  (w0 = w_ru2 \/ w0 = w_ru3 \/ w0 = w_ru4 \/ w0 = w_rdc) ->
+  dom608 ((tc0, w0 :: ws0) :: ls) = true ->
+  read off ((tc0, w0 :: ws0) :: ls) = ROk caps ->
+  nonspace (caps_text caps) = nonspace (sent608 (map snd ((tc0, w0 :: ws0) :: ls))).
+Proof. exact rollup_painton_conserved_608. Qed.
+Print Assumptions C16_rollup_painton_conserved_608.
+
+Example C16_conserved_608_instance :
+  dom608 ex608 = true /\
+  sent608 (map snd ex608) = [97; 98; 174; 99; 193; 99; 100] /\
+  sentx_text (rstate0 0) ex608 = [97; 98; 174; 99; 193; 99; 100] /\
+  exists caps, read 0 ex608 = ROk caps /\ nonspace (caps_text caps) = [97; 98; 174; 99; 193; 99; 100].
+Proof. exact rollup_painton_conserved_608_example. Qed.
+
+(* ---- wave 5: the event model is LINKED to the reader model by a theorem. A roll-up / paint-on program is a list of
+   timecode lines `head PAC chars` (rseg): head = RU2/RU3/RU4 with or without a carriage return, a bare carriage return, or
+   Resume-Direct-Captioning; one row of character pairs per line with at least one visible character and at most 32;
+   depths and modes mixed freely; control codes all single or all doubled. The flush events of the decoder on such a
+   program - their kinds, their instants (get_time of the line's timecode at word 0; the end-of-file roll-up at the word
+   count of the last line) and the pending paint-on buffer - are exactly the rp events: spans_of (read ..) = rp_read ..
+   Outside this class (several rows per line, tab offsets, special / extended characters, mid-row codes, backspace, a flush
+   in the middle of a line, mixed per-code doubling, switches to pop-on) the link stays by execution (request 1602). *)
+Theorem C16_rp_link : forall dd off g0 gs t0 evs tend,
+  sg_head g0 <> HCr -> forallb seg_ok (g0 :: gs) = true ->
+  get_time (sg_tc g0) 0 off = Ok t0 ->
+  rp_events off (seg_paint false g0) gs = Ok evs ->
+  (final_paint (seg_paint false g0) gs = false ->
+   get_time (sg_tc (last gs g0)) (Z.of_nat (length (rseg_words dd (last gs g0)))) off = Ok tend) ->
+  spans_of (read off (map (rseg_line dd) (g0 :: gs))) =
+  rp_read t0 (evs ++ (if final_paint (seg_paint false g0) gs then [] else [RRoll tend]))
+          (final_paint (seg_paint false g0) gs).
+Proof. exact rp_link. Qed.
+Print Assumptions C16_rp_link.
+(* for rendered well-formed timecodes every instant exists *)
+Theorem C16_rp_link_total : forall dd off g0 gs,
+  sg_head g0 <> HCr -> forallb seg_ok (g0 :: gs) = true -> Forall wf_tc (g0 :: gs) ->
+  exists t0 evs tend,
+    get_time (sg_tc g0) 0 off = Ok t0 /\ rp_events off (seg_paint false g0) gs = Ok evs /\
+    get_time (sg_tc (last gs g0)) (Z.of_nat (length (rseg_words dd (last gs g0)))) off = Ok tend /\
+    spans_of (read off (map (rseg_line dd) (g0 :: gs))) =
+    rp_read t0 (link_events g0 gs evs tend) (final_paint (seg_paint false g0) gs).
+Proof. exact rp_link_total. Qed.
+Print Assumptions C16_rp_link_total.
+(* hence the chain-timing statements hold for what READ returns: start < end, ordered, each caption ends exactly when the
+   next begins *)
+Theorem C16_read_chain_ordered : forall dd off g0 gs t0 evs tend l,
+  sg_head g0 <> HCr -> forallb seg_ok (g0 :: gs) = true ->
+  get_time (sg_tc g0) 0 off = Ok t0 ->
+  rp_events off (seg_paint false g0) gs = Ok evs ->
+  (final_paint (seg_paint false g0) gs = false ->
+   get_time (sg_tc (last gs g0)) (Z.of_nat (length (rseg_words dd (last gs g0)))) off = Ok tend) ->
+  rp_nonneg t0 (link_events g0 gs evs tend) ->
+  increasing t0 (map rp_time (link_events g0 gs evs tend)) ->
+  spans_of (read off (map (rseg_line dd) (g0 :: gs))) = Ok l ->
+  Forall (fun p => (fst p < snd p)%Q) l /\
+  (forall i a b, nth_error l i = Some a -> nth_error l (S i) = Some b -> (fst a < fst b)%Q /\ snd a = fst b).
+Proof. exact read_rp_ordered. Qed.
+Print Assumptions C16_read_chain_ordered.
+(* pure roll-up (every line headed by its RU command): the spans read ARE the chain through the line instants *)
+Theorem C16_rollup_read_is_chain : forall dd off g0 gs t0 ts tend l,
+  forallb is_ru (g0 :: gs) = true -> forallb seg_ok (g0 :: gs) = true ->
+  get_time (sg_tc g0) 0 off = Ok t0 -> instants off gs = Ok ts ->
+  get_time (sg_tc (last gs g0)) (Z.of_nat (length (rseg_words dd (last gs g0)))) off = Ok tend ->
+  (0 <= t0)%Q -> increasing t0 (ts ++ [tend]) ->
+  spans_of (read off (map (rseg_line dd) (g0 :: gs))) = Ok l ->
+  l = chain t0 (ts ++ [tend]) /\ Forall (fun p => (fst p < snd p)%Q) l /\
+  (forall i a b, nth_error l i = Some a -> nth_error l (S i) = Some b -> (fst a < fst b)%Q /\ snd a = fst b).
+Proof. exact rollup_read_ordered. Qed.
+Print Assumptions C16_rollup_read_is_chain.
+(* the same link for a wider class of lines (rseg4 = flags x rseg3): the row may carry special characters and a tab offset
+   (doubled as the unit PAC TO PAC TO), a second row on the NEXT screen row may follow on the line (one caption with a line
+   break), and every line has its own doubling flags per class of code (mode command, carriage return, each preamble unit,
+   the specials of each row). A special character sent once must not repeat the one before it (it would be taken for the
+   redundancy copy: Example no_rep_needed in proofs/SccRollPaintLink2Facts.v). Rows on NON-adjacent screen rows in one buffer
+   give several captions sharing a span, so there the link holds only up to `screens` (Example nonadjacent_rows_duplicate);
+   extended characters, backspace, mid-row codes and a flush in the middle of a line remain execution-only. *)
+Theorem C16_rp_link_wide : forall off g0 gs t0 evs tend,
+  s2_head (s3_line (snd g0)) <> HCr -> forallb seg_ok4 (g0 :: gs) = true ->
+  get_time (s2_tc (s3_line (snd g0))) 0 off = Ok t0 ->
+  rp_events off (seg_paint false (skel4 g0)) (map skel4 gs) = Ok evs ->
+  (final_paint (seg_paint false (skel4 g0)) (map skel4 gs) = false ->
+   get_time (s2_tc (s3_line (snd (last gs g0)))) (Z.of_nat (length (rseg4_words (last gs g0)))) off = Ok tend) ->
+  spans_of (read off (map rseg4_line (g0 :: gs))) =
+  rp_read t0 (link_events (skel4 g0) (map skel4 gs) evs tend) (final_paint (seg_paint false (skel4 g0)) (map skel4 gs)).
+Proof. exact rp_link4. Qed.
+Print Assumptions C16_rp_link_wide.
+Theorem C16_read_chain_ordered_wide : forall off g0 gs t0 evs tend l,
+  s2_head (s3_line (snd g0)) <> HCr -> forallb seg_ok4 (g0 :: gs) = true ->
+  get_time (s2_tc (s3_line (snd g0))) 0 off = Ok t0 ->
+  rp_events off (seg_paint false (skel4 g0)) (map skel4 gs) = Ok evs ->
+  (final_paint (seg_paint false (skel4 g0)) (map skel4 gs) = false ->
+   get_time (s2_tc (s3_line (snd (last gs g0)))) (Z.of_nat (length (rseg4_words (last gs g0)))) off = Ok tend) ->
+  rp_nonneg t0 (link_events (skel4 g0) (map skel4 gs) evs tend) ->
+  increasing t0 (map rp_time (link_events (skel4 g0) (map skel4 gs) evs tend)) ->
+  spans_of (read off (map rseg4_line (g0 :: gs))) = Ok l ->
+  l = rp_spans t0 (link_events (skel4 g0) (map skel4 gs) evs tend) (final_paint (seg_paint false (skel4 g0)) (map skel4 gs)) /\
+  Forall (fun p => (fst p < snd p)%Q) l /\
+  (forall i a b, nth_error l i = Some a -> nth_error l (S i) = Some b -> (fst a < fst b)%Q /\ snd a = fst b).
+Proof. exact read_rp_ordered4. Qed.
+Print Assumptions C16_read_chain_ordered_wide.
+Example C16_rp_link_wide_instance :
+  map rseg4_line [ex4_x1; ex4_x2; ex4_x3] =
+    [(lit "00:00:01:00", [37925; 37925; 38061; 37232; 24930; 37440; 38817; 37440; 38817; 37175; 58212]);
+     (lit "00:00:03:00", [38061; 38000; 37175; 58854]);
+     (lit "00:00:05:10", [37929; 37232; 38691; 37232; 38691; 26472; 37296])] /\
+  spans_of (read 0 (map rseg4_line [ex4_x1; ex4_x2; ex4_x3])) =
+    rp_read 1001000 [RRoll 3003000; RRoll (16016000 # 3)] true /\
+  spans_of (read 0 (map rseg4_line [ex4_x1; ex4_x2; ex4_x3])) =
+    Ok [(1001000, 3003000); (3003000, 16016000 # 3); (16016000 # 3, (16016000 # 3) + four_s)]%Q.
+Proof. exact rp_link4_example. Qed.
+
+(* non-vacuity: three doubled roll-up lines "abcd" / "ef" / "ghij" *)
+Example C16_rp_link_instance :
+  spans_of (read 0 (map (rseg_line true) [ex_g1; ex_g2; ex_g3])) =
+    rp_read 1001000 [RPaint 3003000; RPaint (16016000 # 3); RRoll 5605600] false /\
+  spans_of (read 0 (map (rseg_line true) [ex_g1; ex_g2; ex_g3])) =
+    Ok [(1001000, 3003000); (3003000, 16016000 # 3); (16016000 # 3, 5605600)]%Q.
+Proof. exact (proj2 (proj2 (proj2 (proj2 rollup_link_example)))). Qed.
 
 (* non-vacuity: a roll-up stream  RU2 CR PAC "ab" / CR PAC "cd"  read by the model *)
 Example C16_example :
